@@ -229,6 +229,22 @@ pub fn c08(j: &mut Judge, v: &StepView) {
         }
         let _ = id;
     }
+    // a pending ask can be cancelled, expired or rejected
+    if let Req::CancelAsk { id } | Req::ExpireAsk { id } | Req::RejectAsk { id, .. } = v.req {
+        if let Some(a) = v.before.asks.get(id) {
+            if a.class == AskClass::Pending && v.exp.verdict == Verdict::Accept {
+                j.label("reversal-of-pending-ask");
+                if !v.out.accepted() {
+                    j.violate(
+                        Prop::C08,
+                        "pending-ask-cannot-exit",
+                        v.req.kind(),
+                        format!("{} on pending ask {} not carried out: {:?} {}", v.req.kind(), id, v.out.kind, v.out.why),
+                    );
+                }
+            }
+        }
+    }
     if let Req::Match { ask_id, .. } = v.req {
         if v.out.accepted() {
             if let Some(a) = v.before.asks.get(ask_id) {
